@@ -85,7 +85,7 @@ var pausePoints = []string{
 	"serial.put.afterBatchPut", "serial.get.beforeDiskRead", "serial.has.beforeDiskRead",
 	"serial.putBatch.beforeWrite", "serial.putBatch.afterWrite",
 	// not in /repo at present (see the component report): only fire in a tree that has them
-	"db.get.afterIsRemoved", "db.has.afterIsRemoved",
+	"db.get.afterIsRemoved", "serial.get.afterIsRemoved",
 }
 
 func isFlushPoint(p string) bool {
@@ -641,28 +641,35 @@ func scenarios(withTimer bool) []scenario {
 	}
 
 	// F11 (b): LevelDB holds an older value of k, the batch a newer one; a Get is parked between
-	// IsRemoved and batch.Get while Remove(k) runs. Needs the pause point db.get.afterIsRemoved (not in
-	// /repo at present): without it the scenario runs unforced. Pre-fix: the Get returns the older value.
-	out = append(out, scenario{name: "db/F11-get-parked-between-isremoved-and-batchget", kind: kindDB, max: 3, delay: noTimer, run: func(h *hist) {
-		h.put("k")
-		h.put("x")
-		h.put("y") // third entry: flush, k's first value is in LevelDB
-		h.put("k") // newer value pending in the batch (the Remove below is the second entry: no flush)
-		g := h.c.gate("R", "db.get.afterIsRemoved")
-		r := h.async("R", step{kGet, "k"})
-		if g.waitArrived(60 * time.Millisecond) {
-			x := h.async("X", step{kRemove, "k"})
-			h.settleAsync(x)
-			h.c.open(g)
-			x.returned(long)
-		} else {
-			h.noGate++
-			h.c.open(g)
-			h.sync(kRemove, "k", "")
-		}
-		r.returned(long)
-		h.sync(kGet, "k", "")
-	}})
+	// IsRemoved and batch.Get while Remove(k) runs. Needs the pause point <p>.get.afterIsRemoved
+	// (not in /repo at present): without it the scenario runs unforced.
+	// Pre-fix (no RLock around the two batch reads): the Get returns the older value.
+	// Current code: the parked reader holds the RLock, the Remove waits.
+	// (Has cannot expose this window: with one Remove both of its answers are justified.)
+	for _, kind := range []int{kindDB, kindSerial} {
+		kind := kind
+		p := pfx(kind)
+		out = append(out, scenario{name: p + "/F11-get-parked-between-isremoved-and-batchget", kind: kind, max: 3, delay: noTimer, run: func(h *hist) {
+			h.put("k")
+			h.put("x")
+			h.put("y") // third entry: flush, k's first value is in LevelDB
+			h.put("k") // newer value pending in the batch (the Remove below is the second entry: no flush)
+			g := h.c.gate("R", p+".get.afterIsRemoved")
+			r := h.async("R", step{kGet, "k"})
+			if g.waitArrived(60 * time.Millisecond) {
+				x := h.async("X", step{kRemove, "k"})
+				h.settleAsync(x)
+				h.c.open(g)
+				x.returned(long)
+			} else {
+				h.noGate++
+				h.c.open(g)
+				h.sync(kRemove, "k", "")
+			}
+			r.returned(long)
+			h.sync(kGet, "k", "")
+		}})
+	}
 	return out
 }
 
@@ -904,7 +911,7 @@ func (comp) Extra(prop string, tier string, seed int64, scratch string) *core.Ex
 	start := time.Now()
 	nRandom, stressFor := 300, 8*time.Second
 	if tier == "thorough" {
-		nRandom, stressFor = 1500, 230*time.Second
+		nRandom, stressFor = 1500, 120*time.Second
 	}
 	if raceEnabled {
 		res.Counts["race_detector"] = 1
